@@ -35,6 +35,24 @@ impl<A: AcceptableMasterList, C: Clock, F: Filter, R: Rng, S: PtpInstanceStateMu
                     .with_ref(|s| s.parent_ds.parent_port_identity)
         {
             let clock_loop_detected = self.instance_state.with_mut(|state| {
+                // Look for a loop first: a looped Announce is discarded as a whole and
+                // must not leave its contents in the data sets.
+                let path_trace_tlv = if state.path_trace_ds.enable {
+                    message
+                        .suffix
+                        .tlv()
+                        .find(|tlv| tlv.tlv_type == TlvType::PathTrace)
+                } else {
+                    None
+                };
+                if let Some(tlv) = &path_trace_tlv {
+                    let clock_identity = state.default_ds.clock_identity;
+                    if tlv.value.chunks_exact(8).any(|ci| ci == clock_identity.0) {
+                        log::warn!("Clock loop detected");
+                        return true;
+                    }
+                }
+
                 let current_ds = &mut state.current_ds;
                 let parent_ds = &mut state.parent_ds;
                 let time_properties_ds = &mut state.time_properties_ds;
@@ -50,27 +68,15 @@ impl<A: AcceptableMasterList, C: Clock, F: Filter, R: Rng, S: PtpInstanceStateMu
 
                 *time_properties_ds = announce.time_properties();
 
-                if path_trace_ds.enable {
-                    if let Some(tlv) = message
-                        .suffix
-                        .tlv()
-                        .find(|tlv| tlv.tlv_type == TlvType::PathTrace)
-                    {
-                        let clock_identity = state.default_ds.clock_identity;
-                        if tlv.value.chunks_exact(8).any(|ci| ci == clock_identity.0) {
-                            log::warn!("Clock loop detected");
-                            return true;
-                        }
-
-                        // A received frame can be larger than the ones we send: bound the copy
-                        // by the capacity of `list` instead of panicking on longer paths.
-                        path_trace_ds.list = tlv
-                            .value
-                            .chunks_exact(8)
-                            .take(path_trace_ds.list.capacity())
-                            .map(|ci| ClockIdentity(<[u8; 8]>::try_from(ci).unwrap()))
-                            .collect();
-                    }
+                if let Some(tlv) = path_trace_tlv {
+                    // A received frame can be larger than the ones we send: bound the copy
+                    // by the capacity of `list` instead of panicking on longer paths.
+                    path_trace_ds.list = tlv
+                        .value
+                        .chunks_exact(8)
+                        .take(path_trace_ds.list.capacity())
+                        .map(|ci| ClockIdentity(<[u8; 8]>::try_from(ci).unwrap()))
+                        .collect();
                 }
 
                 false
